@@ -10,6 +10,7 @@ package main
 // as stale and skipped (the tree changed; the rules themselves never match text).
 
 import (
+	"os/exec"
 	"encoding/json"
 	"fmt"
 	"os"
@@ -27,6 +28,66 @@ type Mutant struct {
 	Benign bool     `json:"benign"`
 	Why    string   `json:"why"`
 	Props  []string `json:"props"` // benign set only: properties whose rules look at this file
+	// alternative to file/old/new: a unified diff (path relative to /verif), applied to
+	// copies of the files it names; reverse=true applies it backwards (used to revert a fix)
+	Patch   string `json:"patch"`
+	Reverse bool   `json:"reverse"`
+}
+
+// patchOverlay applies a unified diff to scratch copies of the files it names and
+// returns the patched contents keyed by their path in repo.
+func patchOverlay(repo, patchPath string, reverse bool) (map[string][]byte, error) {
+	diff, err := os.ReadFile(patchPath)
+	if err != nil {
+		return nil, err
+	}
+	var files []string
+	for _, ln := range strings.Split(string(diff), "\n") {
+		if strings.HasPrefix(ln, "+++ b/") {
+			files = append(files, strings.TrimSpace(strings.TrimPrefix(ln, "+++ b/")))
+		}
+	}
+	if len(files) == 0 {
+		return nil, fmt.Errorf("no files in patch")
+	}
+	tmp, err := os.MkdirTemp("", "celmut")
+	if err != nil {
+		return nil, err
+	}
+	defer os.RemoveAll(tmp)
+	for _, f := range files {
+		src, err := os.ReadFile(filepath.Join(repo, f))
+		if err != nil {
+			return nil, err
+		}
+		if err := os.MkdirAll(filepath.Dir(filepath.Join(tmp, f)), 0o755); err != nil {
+			return nil, err
+		}
+		if err := os.WriteFile(filepath.Join(tmp, f), src, 0o644); err != nil {
+			return nil, err
+		}
+	}
+	args := []string{"apply"}
+	if reverse {
+		args = append(args, "-R")
+	}
+	abs, _ := filepath.Abs(patchPath)
+	args = append(args, abs)
+	cmd := exec.Command("git", args...)
+	cmd.Dir = tmp
+	cmd.Env = append(os.Environ(), "GIT_DIR=/nonexistent", "GIT_CEILING_DIRECTORIES="+filepath.Dir(tmp))
+	if out, err := cmd.CombinedOutput(); err != nil {
+		return nil, fmt.Errorf("patch does not apply: %s", strings.TrimSpace(string(out)))
+	}
+	ov := map[string][]byte{}
+	for _, f := range files {
+		b, err := os.ReadFile(filepath.Join(tmp, f))
+		if err != nil {
+			return nil, err
+		}
+		ov[filepath.Join(repo, f)] = b
+	}
+	return ov, nil
 }
 
 type MutantResult struct {
@@ -112,16 +173,28 @@ func runMutantSet(pd *propDef, repo, verif string) ([]MutantResult, bool) {
 	for _, m := range ms {
 		res := MutantResult{Name: m.Name, Benign: m.Benign, Expect: m.Expect}
 		t0 := nowSeconds()
-		full := filepath.Join(repo, m.File)
-		src, rerr := os.ReadFile(full)
-		if rerr != nil || strings.Count(string(src), m.Old) != 1 {
-			res.Status = "stale"
-			out = append(out, res)
-			fmt.Printf("MUTANT %-40s stale (anchor text not found exactly once in %s) - skipped\n", m.Name, m.File)
-			continue
+		var overlay map[string][]byte
+		if m.Patch != "" {
+			ov, perr := patchOverlay(repo, filepath.Join(verif, m.Patch), m.Reverse)
+			if perr != nil {
+				res.Status = "stale"
+				out = append(out, res)
+				fmt.Printf("MUTANT %-40s stale (%v) - skipped\n", m.Name, perr)
+				continue
+			}
+			overlay = ov
+		} else {
+			full := filepath.Join(repo, m.File)
+			src, rerr := os.ReadFile(full)
+			if rerr != nil || strings.Count(string(src), m.Old) != 1 {
+				res.Status = "stale"
+				out = append(out, res)
+				fmt.Printf("MUTANT %-40s stale (anchor text not found exactly once in %s) - skipped\n", m.Name, m.File)
+				continue
+			}
+			overlay = map[string][]byte{full: []byte(strings.Replace(string(src), m.Old, m.New, 1))}
 		}
-		mutated := strings.Replace(string(src), m.Old, m.New, 1)
-		p, lerr := loadProgram(repo, map[string][]byte{full: []byte(mutated)}, false)
+		p, lerr := loadProgram(repo, overlay, false)
 		if lerr != nil {
 			res.Status = "load-error"
 			ok = false
